@@ -92,6 +92,9 @@ fn placements(special: &str) -> Vec<(String, String)> {
         (format!(" {special} {a}"), format!(" {a}")),
         (format!(" {a} {special}"), format!(" {a}")),
         (format!(" {a} {special} {b}"), format!(" {a} {b}")),
+        (format!(" {special} {a} {b}"), format!(" {a} {b}")),
+        (format!(" {special} {b} {a} {b}"), format!(" {b} {a} {b}")),
+        (format!(" {a} {special} {b} {a} {a}"), format!(" {a} {b} {a} {a}")),
         (format!(" {a} {b}"), format!(" {a} {b}")),
         (String::new(), String::new()),
     ]
